@@ -284,6 +284,154 @@ def _failing_calls():
             pass
 
 
+# ------------------------------------------------------------------ triples that share coordinates with the generator
+def shared_triples(group):
+    """[(label, model affine point, (x, y, z) model coordinates)]: curve points whose projective triple shares X
+    and Y with the generator but has another Z (z solves b z^2 + b z - Gx^3 = 0), the images of the
+    generator under x -> omega x (same Y), and their negatives"""
+    d = params.curves()["bls12_381"]
+    E, F = d[group], d[group].F
+    G = d["G1"] if group == "E1" else d["G2"]
+    b = F.el(params.BLS_B) if group == "E1" else F.el(params.bls_b2())
+    gx3 = F.mul(F.mul(G[0], G[0]), G[0])
+    out = []
+    disc = F.sqrt(F.add(F.mul(b, b), F.mul(F.smul(b, 4), gx3)))
+    if disc is not None:
+        for sg in (disc, F.neg(disc)):
+            z = F.div(F.add(F.neg(b), sg), F.smul(b, 2))
+            if F.is_zero(z) or z == F.one:
+                continue
+            Pa = (F.div(G[0], z), F.div(G[1], z))
+            assert E.on_curve(Pa)
+            out.append(("(Gx, Gy, z) with z != 1", Pa, (G[0], G[1], z)))
+            out.append(("(Gx, -Gy, z) with z != 1", E.neg(Pa), (G[0], F.neg(G[1]), z)))
+    # cube roots of unity in the base field: (omega * Gx, Gy) is on the curve as well
+    p = params.BLS_P
+    for base in range(2, 40):
+        w = pow(base, (p - 1) // 3, p)
+        if w != 1:
+            break
+    for wk in (w, w * w % p):
+        x = F.smul(G[0], wk) if group == "E2" else G[0] * wk % p
+        Pa = (x, G[1])
+        assert E.on_curve(Pa)
+        out.append(("(omega^k * Gx, Gy, 1)", Pa, (x, G[1], F.one)))
+        two = F.el(2)
+        out.append(("(2 omega^k Gx, 2 Gy, 2)", Pa, (F.mul(x, two), F.mul(G[1], two), two)))
+    return out
+
+
+def shared_case(group, i):
+    d = params.curves()["bls12_381"]
+    E = d[group]
+    cfg = C07_full.field_cfg("bls12_381", group, "opt")
+    opt = importlib.import_module("py_ecc.optimized_bls12_381")
+    lbl, Pa, t = shared_triples(group)[i]
+    rep = tuple(cfg.lib(c) for c in t)
+    out = [(lbl + ": subgroup_check", E.mul(Pa, d["r"]) is None, _verdict(_g2p().subgroup_check, rep))]
+    heff = params.BLS_HEFF_G1 if group == "E1" else params.BLS_HEFF_G2
+    f = opt.multiply_clear_cofactor_G1 if group == "E1" else opt.multiply_clear_cofactor_G2
+    for what, g_, want in ((": clear_cofactor", lambda: f(rep), E.mul(Pa, heff)), (": multiply by 5", lambda: opt.multiply(rep, 5), E.mul(Pa, 5)),
+                           (": multiply by r", lambda: opt.multiply(rep, d["r"]), E.mul(Pa, d["r"])),
+                           (": add to the generator", lambda: opt.add(rep, opt.G1 if group == "E1" else opt.G2), E.add(Pa, d["G1"] if group == "E1" else d["G2"])),
+                           (": double", lambda: opt.double(rep), E.add(Pa, Pa))):
+        try:
+            got = lib.opt_norm(cfg, g_())
+        except Exception as e:  # noqa: BLE001
+            got = "raise " + type(e).__name__
+        out.append((lbl + what, want, got))
+    try:
+        eqg = opt.eq(rep, opt.G1 if group == "E1" else opt.G2)
+    except Exception as e:  # noqa: BLE001
+        eqg = "raise " + type(e).__name__
+    out.append((lbl + ": eq(generator)", False, eqg))
+    return out
+
+
+def task_shared(a, env):
+    r = R("triples-sharing-coordinates-with-the-generator")
+    for group in ("E1", "E2"):
+        for i in range(len(shared_triples(group))):
+            for lbl, exp, got in shared_case(group, i):
+                r.ev += 1
+                r.transitions += 1
+                r.dk.add((group, lbl))
+                if exp != got:
+                    r.viol("C17:full:%s:coordinate-sharing:%s" % (group, lbl.split(": ")[1].split(" ")[0]), ME + ":replay_shared",
+                           {"group": group, "i": i}, exp, got, note=lbl)
+    r.states = 1
+    r.sample({"triples": [l for l, _p, _t in shared_triples("E1")]})
+    return r
+
+
+def replay_shared(a):
+    for lbl, exp, got in shared_case(a["group"], a["i"]):
+        if exp != got:
+            return {"case": lbl, "expected": exp, "observed": got}
+    return None
+
+
+# ------------------------------------------------------------------ calls made from a deep caller stack
+def _at_depth(n, f):
+    return f() if n <= 0 else _at_depth(n - 1, f)
+
+
+def deep_case(which, depth):
+    """the function called with `depth` caller frames already on the stack: the model's answer or
+    RecursionError - never another answer"""
+    d = params.curves()["bls12_381"]
+    opt = importlib.import_module("py_ecc.optimized_bls12_381")
+    group = "E1" if which.endswith("G1") else "E2"
+    E = d[group]
+    cfg = C07_full.field_cfg("bls12_381", group, "opt")
+    Pm = E.mul(d["G1"] if group == "E1" else d["G2"], 7)
+    rep = lib.opt_pt(cfg, Pm, None)
+    if which.startswith("subgroup_check"):
+        want = True
+        f = lambda: bool(_g2p().subgroup_check(rep)) if _g2p().subgroup_check(rep) in (True, False) else "non-bool"  # noqa: E731
+    else:
+        heff = params.BLS_HEFF_G1 if group == "E1" else params.BLS_HEFF_G2
+        g_ = opt.multiply_clear_cofactor_G1 if group == "E1" else opt.multiply_clear_cofactor_G2
+        want = E.mul(Pm, heff)
+        f = lambda: lib.opt_norm(cfg, g_(rep))  # noqa: E731
+    import sys
+    old = sys.getrecursionlimit()
+    try:
+        # the interpreter's default limit, whatever the harness runs with
+        sys.setrecursionlimit(max(1000, len(__import__("inspect").stack(0)) + 60))
+        got = _at_depth(depth, f)
+    except RecursionError:
+        return None
+    except Exception as e:  # noqa: BLE001
+        got = "raise " + type(e).__name__
+    finally:
+        sys.setrecursionlimit(old)
+    return None if got == want else (want, got)
+
+
+def task_deep(a, env):
+    r = R("calls-from-a-deep-caller-stack")
+    lim = 1000  # the interpreter's default recursion limit
+    for which in ("subgroup_check_G1", "subgroup_check_G2", "clear_cofactor_G1", "clear_cofactor_G2"):
+        for depth in range(40, lim - 10, a["step"]):
+            bad = deep_case(which, depth)
+            r.ev += 1
+            r.dk.add((which, depth))
+            if bad:
+                r.viol("C17:full:%s:deep-stack" % which, ME + ":replay_deep", {"which": which, "depth": depth}, bad[0], bad[1],
+                       note="%d caller frames" % depth)
+                break
+    r.transitions = r.ev
+    r.sample({"depths": "40, %d, ... up to the interpreter's recursion limit (%d)" % (40 + a["step"], lim),
+              "accepted": "the model's answer or RecursionError"})
+    return r
+
+
+def replay_deep(a):
+    bad = deep_case(a["which"], a["depth"])
+    return None if not bad else {"expected": bad[0], "observed": bad[1]}
+
+
 def task_full(a, env):
     group = a["group"]
     r = R("full:%s:torsion-alphabet" % group)
@@ -401,5 +549,7 @@ def run(ctx):
         for lo in range(step):
             tasks.append(("full", {"group": group, "lo": lo, "step": step}))
     tasks.append(("consts", {}))
+    tasks.append(("shared", {}))
+    tasks.append(("deep", {"step": 60 if ctx.quick else 15}))
     tasks.sort(key=lambda t: 0 if t[0] == "full" else 1)
     ctx.pmap(ME, tasks)
